@@ -64,13 +64,13 @@ func (r *DecodeResult) decode(data []byte) error {
 			// . varint -> int32, int64, uint32, uint64, sint32, sint64, bool, enum
 			// . fixed32 -> int32, uint32, float32
 			// . fixed64 -> int32, uint64, float64
-			val, err := dec.Skip(tag, wt)
-			if err != nil {
+			// the value starts where the key that was just read ends (the key is not necessarily minimally encoded,
+			// so its length cannot be derived from the tag)
+			start := dec.Offset()
+			if _, err := dec.Skip(tag, wt); err != nil {
 				return err
 			}
-
-			// Skip() returns the entire field contents, both the tag and the value, so we need to skip past the tag
-			val = val[csproto.SizeOfTagKey(tag):]
+			val := data[start:dec.Offset()]
 			fd.wt = wt
 			fd.data = append(fd.data, val)
 		case csproto.WireTypeLengthDelimited:
